@@ -186,12 +186,21 @@ Section Npz.
     else if negb (forallb (fun a => (0 <=? a) && (a <? ndim)) ca) then Raise ValueError   (* axis out of range *)
     else Ok tt.
 
+  (* _compressed_shape[0]: the number of compressed rows = product of the extents of the compressed axes *)
+  Definition compressed_rows (sh : shape) (ca : list Z) : Z :=
+    fold_right Z.mul 1 (map (fun a => nth (Z.to_nat a) sh 0) ca).
+
   (* GCXS((data, indices, indptr), shape=, fill_value=, compressed_axes=) *)
   Definition gcxs_ctor (sh : shape) (axes : option (list Z)) (data : list V) (indices indptr : list Z) (fill : V)
     : res gcxs :=
     _ <- match axes with None => Ok tt | Some ca => check_compressed_axes (len sh) ca end ;;
     let axes := if len sh =? 1 then None else axes in
-    Ok (mkGCXS sh axes data indices indptr fill).
+    (* if self.compressed_axes is not None and len(self.indptr) != self._compressed_shape[0] + 1: raise ValueError *)
+    match axes with
+    | Some ca => if negb (len indptr =? compressed_rows sh ca + 1) then Raise ValueError
+                 else Ok (mkGCXS sh axes data indices indptr fill)
+    | None => Ok (mkGCXS sh axes data indices indptr fill)
+    end.
 
   (* ---------------------------------------------------------------- load_npz *)
   (* the reads of one try-block; None = KeyError.  An ROptionalNone read of an absent member yields None instead of
@@ -326,6 +335,7 @@ Section Npz.
     match g_axes g with
     | None => len (g_shape g) <=? 1
     | Some ca => (2 <=? len (g_shape g)) && axes_ok (len (g_shape g)) ca
+                 && (len (g_indptr g) =? compressed_rows (g_shape g) ca + 1)    (* enforced by GCXS.__init__ *)
     end
     && match k with
        | KCOO => false
